@@ -727,6 +727,34 @@ Proof.
   split; [|split; auto]. eapply inv_same_core; [split; eauto|exact I'].
 Qed.
 
+(* the state right after the new session has joined the session table *)
+Lemma attach_pre : forall B sv s host nm, inv B sv -> get_session sv s = None ->
+  (forall ss, In ss (sv_sessions sv) -> session_dir ss <> [host; nm]) ->
+  let ssn := mkSession s host nm empty_matcher default_max_items None [] in
+  let sv0 := mkServer (sv_tree sv) (sv_sessions sv ++ [ssn]) (sv_dirty sv) in
+  inv_x B [host; nm] sv0 /\ find_node (sv_tree sv) [host; nm] = None.
+Proof.
+  intros B sv s host nm I Hnone Hfresh ssn sv0.
+  assert (Habsent : find_node (sv_tree sv) [host; nm] = None).
+  { apply find_node_none. intros n Hn Hp. destruct (inv_depth2 _ _ _ I n Hn) as [ss [H1 H2]]; [now rewrite Hp|].
+    apply (Hfresh ss H1). congruence. }
+  split; auto.
+  pose proof I as [I1 I2 I3 I4 I5 I6 I7]. constructor; cbn [sv_tree sv_sessions sv0].
+  - exact I1.
+  - rewrite map_app. apply NoDup_app_intro; auto; [repeat constructor; intros []|].
+    intros k Hk [Hk'|[]]. cbn in Hk'. subst k. unfold get_session in Hnone. apply find_session_none in Hnone. contradiction.
+  - rewrite map_app. apply NoDup_app_intro; auto; [repeat constructor; intros []|].
+    intros d Hd [Hd'|[]]. cbn in Hd'. subst d. apply in_map_iff in Hd as [ss [H1 H2]]. now apply (Hfresh ss).
+  - intros ss Hin. apply in_app_or in Hin as [Hin|[Hin|[]]]; [now apply I4|]. subst ss. cbn. split; [apply wf_empty|lia].
+  - intros ss Hin. apply in_app_or in Hin as [Hin|[Hin|[]]]; [|subst ss; now left].
+    right. now apply (inv_dirs_exist B sv).
+  - intros n Hn Hl. destruct (I6 n Hn Hl) as [ss [H1 H2]]. exists ss. split; [apply in_or_app; now left|auto].
+  - intros n Hn. destruct (I7 n Hn) as [H1 H2]. split; auto. intros s'. rewrite H2.
+    unfold count_for, get_session. cbn [sv_sessions sv0]. rewrite find_session_app.
+    destruct (find_session (sv_sessions sv) s'); auto.
+    cbn [s_id ssn]. destruct (N.eqb s s'); reflexivity.
+Qed.
+
 Lemma attach_inv : forall B sv s host nm, small B -> inv B sv -> get_session sv s = None ->
   (forall ss, In ss (sv_sessions sv) -> session_dir ss <> [host; nm]) ->
   inv B (attach sv s host nm).
